@@ -372,7 +372,13 @@ class ZeroProbabilityBranch(E2Contract):
         kind2, joint = spec_chain(W, c_sys, [("povm", list(pv.vecs)), ("mprocess", list(mp_full.hss)), ("state", [st.vec])])
         for idx, v in joint.items():
             mk.require(v >= 2 * EPS)
-        return dict(mp=mp, st=st, ref=ref, pv=pv, joint=joint)
+        # the same measurement process (with its impossible outcome) applied to the ENSEMBLE an earlier two-outcome measurement leaves
+        first = param_obj(W, mk, "mprocess", c_sys, 2, "f")
+        kind3, seq = spec_chain(W, c_sys, [("mprocess", list(mp_full.hss)), ("mprocess", list(first.hss)), ("state", [st.vec])])
+        kind4, ref_first = spec_chain(W, c_sys, [("mprocess", list(first.hss)), ("state", [st.vec])])
+        for idx, v in list(seq.items()) + list(ref_first.items()):
+            mk.require(v[0] >= 2 * EPS)
+        return dict(mp=mp, st=st, ref=ref, pv=pv, joint=joint, first=first, seq=seq)
 
     def sample(self, cfg, names, rng):
         import math
@@ -382,13 +388,16 @@ class ZeroProbabilityBranch(E2Contract):
         for x in range(m - 2):
             vals[f"m_{x * d ** 4}"] = 1.0 / (m - 1) + rng.uniform(-0.03, 0.03)
         vals["e_0"] = math.sqrt(d) / 2 + rng.uniform(-0.03, 0.03)
+        vals["f_0"] = 0.7 + rng.uniform(-0.05, 0.05)          # a NON-uniform first measurement
         return vals
 
     def run(self, W, cfg, inp):
         ops = W.mod(OPS)
         r = ops.compose_qoperations(inp["mp"], inp["st"])
         j = ops.compose_qoperations(inp["pv"], r)
-        return dict(ps=r.prob_dist.ps, states=[x.vec for x in r.states], joint=j.ps, joint_shape=list(j.shape))
+        e2 = ops.compose_qoperations(inp["mp"], ops.compose_qoperations(inp["first"], inp["st"]))
+        return dict(ps=r.prob_dist.ps, states=[x.vec for x in r.states], joint=j.ps, joint_shape=list(j.shape),
+                    seq=e2.prob_dist.ps, seq_shape=list(e2.prob_dist.shape))
 
     def post(self, W, cfg, inp, out):
         s, m, zero = cfg
@@ -409,6 +418,13 @@ class ZeroProbabilityBranch(E2Contract):
         cl += [eq("povm-afterwards/shape", out["joint_shape"], [m, 2], "a POVM measured afterwards: joint outcome shape (earlier measurement first)"),
                eq("povm-afterwards/joint-distribution", out["joint"], want,
                   "joint probabilities: zero row for the impossible outcome (one entry per POVM outcome), Born probabilities Tr(E_y Lambda_x(rho)) elsewhere")]
+        want2 = []
+        for x1 in range(2):
+            for x in range(m):
+                want2.append(0 if x == zero else inp["seq"][(x1, others.index(x))][0])
+        cl += [eq("after-an-earlier-measurement/shape", out["seq_shape"], [2, m], "applied to the ensemble of an earlier measurement: outcome shape (earlier first)"),
+               eq("after-an-earlier-measurement/joint-distribution", out["seq"], want2,
+                  "P(x1, x2) == Tr(Lambda_x2 Lambda_x1 rho) with zero entries for the impossible outcome: each block is weighted with P(x1), not renormalised to 1")]
         return cl
 
 
@@ -434,7 +450,8 @@ class GenerateMProcess(E2Contract):
     frame = False
 
     def configs(self, tier):
-        return [("1q", 2, 2), ("1q", 3, 2), ("1q", 2, 0), ("1q", 2, 1)] + ([("1qt", 2, 2), ("1q", 3, 0)] if tier == "thorough" else [])
+        # mode "2s": back-action mode 2 with ONE post-selected state for every outcome (a State, not a list)
+        return [("1q", 2, 2), ("1q", 3, 2), ("1q", 2, 0), ("1q", 2, 1), ("1q", 3, "2s")] + ([("1qt", 2, 2), ("1q", 3, 0), ("1qt", 2, "2s")] if tier == "thorough" else [])
 
     def inputs(self, W, cfg, mk):
         s, m, mode = cfg
@@ -442,6 +459,8 @@ class GenerateMProcess(E2Contract):
         povm = param_obj(W, mk, "povm", c_sys, m, "p")
         d = c_sys.dim
         post = [param_obj(W, mk, "state", c_sys, 0, f"s{x}") for x in range(m)] if mode == 2 else None
+        if mode == "2s":
+            post = param_obj(W, mk, "state", c_sys, 0, "s0")
         if mode == 1:
             # separated spectra: the code groups eigenvalues closer than Settings.get_atol() into one eigenspace (rounding of a degenerate
             # eigenvalue); the grouped branch is float-level and is evaluated natively on instances (C06_native, bounded stand-in)
@@ -457,7 +476,7 @@ class GenerateMProcess(E2Contract):
 
     def run(self, W, cfg, inp):
         s, m, mode = cfg
-        mp = inp["povm"].generate_mprocess(mode_backaction=mode, post_selected_states=inp["post"])
+        mp = inp["povm"].generate_mprocess(mode_backaction=2 if mode == "2s" else mode, post_selected_states=inp["post"])
         return dict(hss=list(mp.hss), to_povm=list(mp.to_povm().vecs))
 
     def post(self, W, cfg, inp, out):
@@ -472,8 +491,8 @@ class GenerateMProcess(E2Contract):
         for x in range(m):
             Mx = S.op_from_vec(c_sys, povm.vecs[x])
             img = S.apply_hs(c_sys, out["hss"][x], rho)
-            if mode == 2:
-                want = S.trace(Mx @ rho) * S.op_from_vec(c_sys, inp["post"][x].vec)
+            if mode in (2, "2s"):
+                want = S.trace(Mx @ rho) * S.op_from_vec(c_sys, (inp["post"] if mode == "2s" else inp["post"][x]).vec)
                 cl.append(eq(f"back-action[{x}]", img, want, "mode 2: Lambda_x(rho) == Tr(M_x rho) * post_selected_state_x"))
                 cl.append(eq(f"induces-the-povm[{x}]", out["to_povm"][x], povm.vecs[x], "to_povm() of the generated process is the POVM"))
             elif mode == 0:
